@@ -99,3 +99,30 @@ impl StringFormatter<'_> {
         Some(contents)
     }
 }
+
+/// Verification hooks (feature `pasfmt_verif`): forwarding wrappers.
+#[cfg(feature = "pasfmt_verif")]
+pub mod verif_hooks_multiline {
+    use super::*;
+
+    pub fn lines_custom(input: &str) -> Vec<&str> {
+        super::lines_custom(input).collect()
+    }
+
+    pub fn try_rewrite_string(
+        recon_settings: &ReconstructionSettings,
+        original: &str,
+        indent: &FormattingData,
+        base_indentation: &str,
+    ) -> Option<String> {
+        StringFormatter { recon_settings }.try_rewrite_string(original, indent, base_indentation)
+    }
+
+    pub fn format_multiline_strings(
+        recon_settings: &ReconstructionSettings,
+        line: &LogicalLine,
+        tokens: &mut FormattedTokens,
+    ) -> bool {
+        StringFormatter { recon_settings }.format_multiline_strings(line, tokens)
+    }
+}
